@@ -13,16 +13,16 @@ func init() { props["C04"] = propC04 }
 
 // protocol events: the calls made by the sync root / SyncBlock below which balance mutation is allowed.
 var eventRoots = map[string]string{
-	"node.(*Pegnetd).NullifyBurnAddress":              "one-time adjustment: burn-address zeroing",
-	"node.(*Pegnetd).MintTokensForBalance":            "one-time adjustment: 2.0.4 mint",
-	"node.(*Pegnetd).NullifyMintedTokens":             "one-time adjustment: burn of the 2.0.4 remainder",
-	"node.(*Pegnetd).SnapshotPayouts":                 "holder staking payouts",
-	"node.(*Pegnetd).ApplyTransactionBatchesInHolding": "transfers and conversions (held batches)",
-	"node.(*Pegnetd).ApplyTransactionBlock":           "transfers (immediate batches)",
-	"node.(*Pegnetd).ApplyFactoidBlock":               "FCT burns",
-	"node.(*Pegnetd).ApplyGradedOPRBlock":             "mining rewards",
-	"node.(*Pegnetd).ApplyGradedSPRBlock":             "staking (SPR) rewards",
-	"node.(*Pegnetd).DevelopersPayouts":               "developer rewards",
+	"node.Pegnetd.NullifyBurnAddress":              "one-time adjustment: burn-address zeroing",
+	"node.Pegnetd.MintTokensForBalance":            "one-time adjustment: 2.0.4 mint",
+	"node.Pegnetd.NullifyMintedTokens":             "one-time adjustment: burn of the 2.0.4 remainder",
+	"node.Pegnetd.SnapshotPayouts":                 "holder staking payouts",
+	"node.Pegnetd.ApplyTransactionBatchesInHolding": "transfers and conversions (held batches)",
+	"node.Pegnetd.ApplyTransactionBlock":           "transfers (immediate batches)",
+	"node.Pegnetd.ApplyFactoidBlock":               "FCT burns",
+	"node.Pegnetd.ApplyGradedOPRBlock":             "mining rewards",
+	"node.Pegnetd.ApplyGradedSPRBlock":             "staking (SPR) rewards",
+	"node.Pegnetd.DevelopersPayouts":               "developer rewards",
 }
 
 func propC04(c *Ctx, r *Report) {
@@ -33,12 +33,12 @@ func propC04(c *Ctx, r *Report) {
 
 	r.rule("C04-R1/balance-writers", 2, "only the two mutators write pn_addresses")
 	ruleTableWriters(c, cat, r, "C04-R1/balance-writers", "pn_addresses", []writerSpec{
-		{"pegnet.(*Pegnet).AddToBalance", "INSERT", "ON CONFLICT DO UPDATE"},
-		{"pegnet.(*Pegnet).SubFromBalance", "UPDATE", ""},
+		{"pegnet.Pegnet.AddToBalance", "INSERT", "ON CONFLICT DO UPDATE"},
+		{"pegnet.Pegnet.SubFromBalance", "UPDATE", ""},
 	}, true)
 	// the upsert adds, never overwrites
 	for _, st := range cat.Stmts {
-		if fname(st.Fn) == "pegnet.(*Pegnet).AddToBalance" && st.Verb == "INSERT" {
+		if fname(st.Fn) == "pegnet.Pegnet.AddToBalance" && st.Verb == "INSERT" {
 			norm := strings.Join(strings.Fields(st.Text), " ")
 			okAdd := strings.Contains(norm, "_balance\" = \"") && strings.Contains(norm, "_balance\" + \"excluded\".")
 			r.check(okAdd, "C04-R1/balance-writers", "AddToBalance upsert adds the new value to the old", c.ipos(st.Site), "", "ON CONFLICT clause is not `balance = balance + excluded.balance`: "+oneLine(st.Text))
@@ -46,7 +46,7 @@ func propC04(c *Ctx, r *Report) {
 	}
 
 	// R2 event roots
-	r.rule("C04-R2/event-roots", 10, "balance mutators are reachable only below the enumerated protocol events")
+	r.rule("C04-R2/event-roots", 7, "balance mutators are reachable only below the enumerated protocol events")
 	add := c.fn("pegnet.Pegnet.AddToBalance")
 	sub := c.fn("pegnet.Pegnet.SubFromBalance")
 	// reach from SYNC avoiding the event roots
@@ -102,7 +102,7 @@ func propC04(c *Ctx, r *Report) {
 	for f := range avoid {
 		for _, s := range c.callSitesOf(f) {
 			cn := fname(s.Caller)
-			if cn != "node.(*Pegnetd).SyncBlock" && cn != "node.(*Pegnetd).DBlockSync" {
+			if cn != "node.Pegnetd.SyncBlock" && cn != "node.Pegnetd.DBlockSync" {
 				r.viol("C04-R2/event-roots", "event "+f.Name()+" called from "+cn, c.ipos(s.Site), "a protocol event function has a caller other than the block pipeline")
 			}
 		}
@@ -111,8 +111,8 @@ func propC04(c *Ctx, r *Report) {
 	// R3 transfer conservation
 	r.rule("C04-R3/transfer-conservation", 3, "one debit per transaction, one credit per transfer, same ticker")
 	rb := c.fn("node.Pegnetd.recordBatch")
-	subs := findCalls(rb, "pegnet.(*Pegnet).SubFromBalance")
-	adds := findCalls(rb, "pegnet.(*Pegnet).AddToBalance")
+	subs := findCalls(rb, "pegnet.Pegnet.SubFromBalance")
+	adds := findCalls(rb, "pegnet.Pegnet.AddToBalance")
 	if len(subs) != 1 || len(adds) != 2 {
 		r.viol("C04-R3/transfer-conservation", "recordBatch mutator call sites", c.pos(rb.Pos()), fmt.Sprintf("%d SubFromBalance and %d AddToBalance call sites (expected 1 debit, 1 conversion credit, 1 transfer credit)", len(subs), len(adds)))
 		return
@@ -189,7 +189,7 @@ func propC04(c *Ctx, r *Report) {
 	if convRes == nil {
 		bad = append(bad, "credited amount is not the result of Convert")
 	} else {
-		hist := findCalls(rb, "pegnet.(*Pegnet).SetTransactionHistoryConvertedAmount")
+		hist := findCalls(rb, "pegnet.Pegnet.SetTransactionHistoryConvertedAmount")
 		if len(hist) != 1 || hist[0].Common().Args[4] != convRes {
 			bad = append(bad, "the amount recorded in history is not the same value as the amount credited")
 		}
@@ -213,6 +213,16 @@ func propC04(c *Ctx, r *Report) {
 	ruleValidateBounds(c, r, "C04-R3/input-equals-outputs")
 	ruleMidBatchFailure(c, r, "C04-R6/no-partial-batch")
 
+	// every deferred (debited) PEG request reaches the settlement exactly once (shared with C06/C16)
+	r.rule("C04-R7/requests-settled", 1, "the list of deferred PEG requests handed to the settlement is complete and not stale")
+	{
+		hold := c.fn("node.Pegnetd.ApplyTransactionBatchesInHolding")
+		for _, ci := range findCalls(hold, "node.Pegnetd.recordPegnetRequests") {
+			if l := innermostLoop(hold, ci.Block()); l != nil {
+				settleOnce(c, r, "C04-R7/requests-settled", hold, ci, l)
+			}
+		}
+	}
 	// R5 second pass
 	r.rule("C04-R5/second-pass-peg-only", 1, "the PEG bank pass credits PEG requests only")
 	secondPassPEGOnly(c, r, "C04-R5/second-pass-peg-only")
@@ -220,19 +230,57 @@ func propC04(c *Ctx, r *Report) {
 
 // burnExemption: the only uncredited transfer output is the global burn address, from its activation on.
 func burnExemption(c *Ctx, r *Report, rb *ssa.Function, credit ssa.CallInstruction) {
-	rule := "C04-R3/transfer-conservation"
+	burnExemptionRule(c, r, rb, credit, "C04-R3/transfer-conservation", "C04-R3/burn-exemption-era")
+}
+
+func burnExemptionRule(c *Ctx, r *Report, rb *ssa.Function, credit ssa.CallInstruction, rule, eraRule string) {
 	// the condition guarding the credit
 	var cmp *ssa.BinOp
+	var burnEdge, cmpBlock *ssa.BasicBlock
 	for _, b := range rb.Blocks {
-		cond, tb, _ := condEdge(b)
-		bo, ok := cond.(*ssa.BinOp)
-		if ok && bo.Op == token.NEQ && blockOrDom(tb, credit.Block()) && len(tb.Preds) == 1 && strings.HasSuffix(typePath(bo.X), "AddressAmountTuple.Address") {
+		bo, ne, eq := eqEdges(b)
+		if bo != nil && blockOrDom(ne, credit.Block()) && len(ne.Preds) == 1 && (strings.HasSuffix(typePath(bo.X), "AddressAmountTuple.Address") || strings.HasSuffix(typePath(bo.Y), "AddressAmountTuple.Address")) {
+			if strings.HasSuffix(typePath(bo.Y), "AddressAmountTuple.Address") {
+				bo = &ssa.BinOp{Op: bo.Op, X: bo.Y, Y: bo.X} // normalised: transfer address on the left
+			}
 			cmp = bo
+			burnEdge, cmpBlock = eq, b
 		}
 	}
 	if cmp == nil {
 		r.viol(rule, "burn-address exemption", c.ipos(credit), "the transfer credit is not guarded by `transfer.Address != <burn address>`; either every output is credited (then the burn address accumulates supply) or the guard changed shape")
 		return
+	}
+	// every iteration of the transfer loop either credits or takes the burn edge of that comparison
+	if l := innermostLoop(rb, credit.Block()); l != nil {
+		skip := false
+		seen := map[*ssa.BasicBlock]bool{}
+		var walk func(b, from *ssa.BasicBlock)
+		walk = func(b, from *ssa.BasicBlock) {
+			if skip || !l.blocks[b] || b == credit.Block() {
+				return
+			}
+			if b == burnEdge && from == cmpBlock {
+				return
+			}
+			if b == l.header && from != nil {
+				skip = true
+				return
+			}
+			if seen[b] {
+				return
+			}
+			seen[b] = true
+			for _, s2 := range b.Succs {
+				if _, isIf := b.Instrs[len(b.Instrs)-1].(*ssa.If); isIf {
+					walk(s2, b)
+				} else {
+					walk(s2, nil2(b, burnEdge))
+				}
+			}
+		}
+		walk(l.header, nil)
+		r.check(!skip, rule, "every transfer that is not to the burn address is credited", c.ipos(credit), "no path round the transfer loop avoids the credit except the burn edge", "an iteration of the transfer loop can complete without crediting the output although it is not the burn address: the input is debited in full, so supply is destroyed")
 	}
 	// the comparand: a local holding NewFAAddress(GlobalBurnAddress), lifted to a phi or kept in an alloc
 	fromBurn := func(v ssa.Value) bool {
@@ -276,13 +324,16 @@ func burnExemption(c *Ctx, r *Report, rb *ssa.Function, credit ssa.CallInstructi
 		}
 	}
 	r.check(okSrc, rule, "exempt address is node.GlobalBurnAddress", c.ipos(cmp), "", "the address exempted from crediting is not NewFAAddress(GlobalBurnAddress)")
-	r.check(!zeroEdge, "C04-R3/burn-exemption-era", "burn exemption confined to the era in which the burn address is assigned", c.ipos(cmp), "", "the burn address variable is assigned only when currentHeight >= V202EnhanceActivation but the exemption test runs at every height: before 2.0.2 it compares with the zero value, so a transfer output to the all-zero address is debited from the sender and credited to nobody (value destroyed by an event the protocol does not enumerate)")
+	if eraRule == "" {
+		return
+	}
+	r.check(!zeroEdge, eraRule, "burn exemption confined to the era in which the burn address is assigned", c.ipos(cmp), "", "the burn address variable is assigned only when currentHeight >= V202EnhanceActivation but the exemption test runs at every height: before 2.0.2 it compares with the zero value, so a transfer output to the all-zero address is debited from the sender and credited to nobody (value destroyed by an event the protocol does not enumerate)")
 }
 
 // secondPassPEGOnly: in recordPegnetRequests every request added to the bank set must be a PEG request.
 func secondPassPEGOnly(c *Ctx, r *Report, rule string) {
 	rp := c.fn("node.Pegnetd.recordPegnetRequests")
-	adds := findCalls(rp, "conversions.(*ConversionSupplySet).AddConversion")
+	adds := findCalls(rp, "conversions.ConversionSupplySet.AddConversion")
 	if len(adds) != 1 {
 		r.viol(rule, "recordPegnetRequests AddConversion", c.pos(rp.Pos()), fmt.Sprintf("%d call sites", len(adds)))
 		return
@@ -321,4 +372,14 @@ func secondPassPEGOnly(c *Ctx, r *Report, rule string) {
 		return
 	}
 	r.viol(rule, "recordPegnetRequests considers PEG requests only", c.ipos(ac), "the second pass iterates over every transaction of a batch that contains a PEG request, with no IsPEGRequest filter: with tx.Conversion = pXBT the bank request and both credits are executable. A legacy batch [pUSD->PEG, pUSD->pXBT] is credited pXBT twice (once in recordBatch, once here, and its value is charged to the PEG bank); a batch [pUSD->PEG, transfer] makes AddToBalance prepare a statement on column `invalid token type_balance` and fails the block for ever")
+}
+
+// nil2 returns b unless the edge cannot be the burn edge (keeps walk's from-argument an *If block or nil).
+func nil2(b, burnEdge *ssa.BasicBlock) *ssa.BasicBlock {
+	if len(b.Instrs) > 0 {
+		if _, ok := b.Instrs[len(b.Instrs)-1].(*ssa.If); ok {
+			return b
+		}
+	}
+	return nil
 }
